@@ -132,6 +132,18 @@ namespace embedded_pairing::bls12_381 {
                     return false;
                 }
             }
+
+            /*
+             * Parsing masks the control bits of every field and reduces each
+             * coordinate modulo q, so several byte strings would map to the
+             * same point. Accept only the canonical one.
+             */
+            Encoding<Affine, compressed> canonical;
+            canonical.encode(g);
+            if (memcmp(canonical.data, this->data, sizeof(this->data)) != 0) {
+                return false;
+            }
+
             return g.is_in_correct_subgroup_assuming_on_curve();
         }
 
